@@ -633,8 +633,8 @@ def check_escape_machines(prog: Program, res: Results) -> None:
         q = next((v for v in state_vars if "quote" in v and not v.startswith("interp")), None)
         e = next((v for v in state_vars if v.startswith("escape")), None)
         depth = next((v for v in state_vars if "depth" in v), None)
-        chv = next((norm(d.targets[0]) for d in ast.walk(lp) if isinstance(d, ast.Assign) and isinstance(d.value, ast.Subscript)
-                    and isinstance(d.targets[0], ast.Name) and len(d.targets[0].id) <= 4), None)
+        chv = next((norm(d.targets[0]) for d in lp.body if isinstance(d, ast.Assign) and isinstance(d.value, ast.Subscript)
+                    and isinstance(d.targets[0], ast.Name) and isinstance(d.value.value, ast.Name) and isinstance(d.value.slice, ast.Name)), None)
         if q and e and depth and chv:
             idx = next((norm(d.value.slice) for d in ast.walk(lp) if isinstance(d, ast.Assign) and norm(d.targets[0]) == chv and isinstance(d.value, ast.Subscript)), "index")
             src = next((norm(d.value.value) for d in ast.walk(lp) if isinstance(d, ast.Assign) and norm(d.targets[0]) == chv and isinstance(d.value, ast.Subscript)), "text")
